@@ -1,1 +1,513 @@
 // Kani harnesses compiled inside rs-matter/src/sc/pase.rs (module `verif_kani`).
+
+mod c02 {
+    use super::*;
+    use crate::sc::pase::spake2p::{Spake2pVerifierSalt, Spake2pVerifierStr};
+
+    static mut NOW: u64 = 0;
+
+    fn fake_now() -> Instant {
+        Instant::from_ticks(unsafe { NOW })
+    }
+
+    fn set_now() -> Instant {
+        let t: u64 = kani::any();
+        unsafe { NOW = t };
+        Instant::from_ticks(t)
+    }
+
+    fn any_opener() -> Option<CommWindowOpener> {
+        if kani::any() {
+            let idx: u8 = kani::any();
+            kani::assume(idx != 0);
+            Some(CommWindowOpener { fab_idx: NonZeroU8::new(idx).unwrap(), vendor_id: kani::any() })
+        } else {
+            None
+        }
+    }
+
+    /// Every window value: basic or enhanced, any verifier material, any expiry, any failure count
+    /// (real windows hold a count below 20; the contracts below do not need that).
+    fn any_window() -> CommWindow {
+        let salt_len: u8 = kani::any();
+        kani::assume(salt_len as usize <= SPAKE2P_VERIFIER_SALT_LEN);
+        CommWindow {
+            mdns_id: kani::any(),
+            discriminator: kani::any(),
+            verifier: Spake2pVerifierData {
+                password: if kani::any() { Some(Spake2pVerifierPassword::from(kani::any::<[u8; SPAKE2P_VERIFIER_PASSWORD_LEN]>())) } else { None },
+                verifier: Spake2pVerifierStr::from(kani::any::<[u8; spake2p::SPAKE2P_VERIFIER_STR_LEN]>()),
+                salt: Spake2pVerifierSalt::from(kani::any::<[u8; SPAKE2P_VERIFIER_SALT_LEN]>()),
+                salt_len,
+                count: kani::any(),
+            },
+            opener: any_opener(),
+            window_expiry: Instant::from_ticks(kani::any()),
+            pake_failures: kani::any(),
+        }
+    }
+
+    fn any_session_timeout() -> Option<SessionEstTimeout> {
+        if kani::any() {
+            let sid: u32 = kani::any();
+            let idx: usize = kani::any();
+            kani::assume(sid <= 0x0fff_ffff && idx < 16);
+            Some(SessionEstTimeout { session_est_expiry: Instant::from_ticks(kani::any()), exch_id: ExchangeId::new(sid, idx) })
+        } else {
+            None
+        }
+    }
+
+    fn any_pase(with_window: bool) -> Pase {
+        Pase {
+            comm_window: if with_window { Maybe::some(any_window()) } else { Maybe::none() },
+            session_timeout: any_session_timeout(),
+        }
+    }
+
+    /// A state without a window whose storage holds the stale bytes of an earlier, arbitrary window (what
+    /// `Maybe::clear` leaves behind). Semantically the same as `Maybe::none()` and weaker as an invariant.
+    /// Used by the `open_*` contracts: CBMC does not relate the field-wise in-place initialisation of a
+    /// `MaybeUninit::uninit()` union to later reads through its `value` member (spurious all-zero window).
+    fn closed_pase() -> Pase {
+        let mut comm_window = Maybe::some(any_window());
+        comm_window.clear();
+        Pase { comm_window, session_timeout: any_session_timeout() }
+    }
+
+    /// Position at which the byte strings of a window are observed (arbitrary, so every position is covered
+    /// without comparing 97-byte arrays as a whole).
+    #[derive(Clone, Copy)]
+    struct Probe {
+        vi: usize,
+        si: usize,
+    }
+
+    fn any_probe() -> Probe {
+        let p = Probe { vi: kani::any(), si: kani::any() };
+        kani::assume(p.vi < spake2p::SPAKE2P_VERIFIER_STR_LEN && p.si < SPAKE2P_VERIFIER_SALT_LEN);
+        p
+    }
+
+    /// Everything observable of a window (byte strings at the probe position).
+    #[derive(Clone, Copy, PartialEq, Eq)]
+    struct WinView {
+        mdns_id: u64,
+        discriminator: u16,
+        opener: Option<CommWindowOpener>,
+        expiry: u64,
+        failures: u8,
+        password: Option<[u8; SPAKE2P_VERIFIER_PASSWORD_LEN]>,
+        verifier_at: u8,
+        salt_at: u8,
+        salt_len: u8,
+        count: u32,
+    }
+
+    fn view(p: &Pase, k: Probe) -> Option<WinView> {
+        p.comm_window.as_opt_ref().map(|w| WinView {
+            mdns_id: w.mdns_id,
+            discriminator: w.discriminator,
+            opener: w.opener,
+            expiry: w.window_expiry.as_ticks(),
+            failures: w.pake_failures,
+            password: w.verifier.password.as_ref().map(|p| *p.access()),
+            verifier_at: w.verifier.verifier.access()[k.vi],
+            salt_at: w.verifier.salt.access()[k.si],
+            salt_len: w.verifier.salt_len,
+            count: w.verifier.count,
+        })
+    }
+
+    fn timeout_view(p: &Pase) -> Option<(u64, ExchangeId)> {
+        p.session_timeout.as_ref().map(|t| (t.session_est_expiry.as_ticks(), t.exch_id))
+    }
+
+    /// Every failed proof is counted; the window is revoked after twenty of them; the in-progress marker
+    /// is always cleared.
+    // TIER: quick
+    // KIND: complete
+    #[kani::proof]
+    fn c02_record_pake_failure_contract() {
+        let had_window: bool = kani::any();
+        let mut p = any_pase(had_window);
+        let k = any_probe();
+        let before = view(&p, k);
+        let mut mdns = 0u32;
+        let mut changes = 0u32;
+
+        let r = p.record_pake_failure(|| mdns += 1, |_, _| changes += 1);
+
+        let after = view(&p, k);
+        kani::assert(r.is_ok(), "C02.failure.never_fails");
+        kani::assert(p.session_timeout.is_none(), "C02.failure.clears_session_timeout");
+        match before {
+            Some(b) => {
+                let new_count = if b.failures == u8::MAX { u8::MAX } else { b.failures + 1 };
+                kani::assert(after.is_none() == (new_count >= 20), "C02.failure.revoked_iff_twenty");
+                if let Some(a) = after {
+                    kani::assert(a.failures == new_count, "C02.failure.counted");
+                    kani::assert(a == WinView { failures: new_count, ..b }, "C02.failure.rest_of_window_unchanged");
+                }
+                kani::assert((mdns == 1) == after.is_none() && mdns <= 1, "C02.failure.mdns_notified_iff_revoked");
+                kani::assert((changes == 1) == after.is_none() && changes <= 1, "C02.failure.attrs_notified_iff_revoked");
+            }
+            None => {
+                kani::assert(after.is_none(), "C02.failure.no_window_stays_closed");
+                kani::assert(mdns == 0 && changes == 0, "C02.failure.no_window_no_notification");
+            }
+        }
+
+        kani::cover!(matches!(before, Some(b) if b.failures == 18) && after.is_some(), "19th failure keeps the window");
+        kani::cover!(matches!(before, Some(b) if b.failures == 19) && after.is_none(), "20th failure revokes");
+        kani::cover!(matches!(before, Some(b) if b.failures == 255), "saturation");
+        kani::cover!(before.is_none(), "no window");
+    }
+
+    fn code(r: &Result<(), Error>) -> Option<ErrorCode> {
+        match r {
+            Ok(()) => None,
+            Err(e) => Some(e.code()),
+        }
+    }
+
+    /// `open_basic_comm_window`: Busy while a window exists, InvalidCommand outside 180..=900 s, the salt must
+    /// be 16..=32 bytes; otherwise a fresh window (no failures counted) expiring `timeout` seconds from now.
+    // TIER: thorough
+    // KIND: bounded (salt argument of 0..=40 bytes; legal lengths are 16..=32)
+    #[kani::proof]
+    #[kani::unwind(99)]
+    #[kani::stub(embassy_time::Instant::now, fake_now)]
+    fn c02_open_basic_comm_window_contract() {
+        let had_window: bool = kani::any();
+        let mut p = if had_window { any_pase(true) } else { closed_pase() };
+        let k = any_probe();
+        let before = view(&p, k);
+        let st_before = timeout_view(&p);
+        let now = set_now();
+
+        let mdns_id: u64 = kani::any();
+        let discriminator: u16 = kani::any();
+        let timeout_secs: u16 = kani::any();
+        let opener = any_opener();
+        let password: [u8; SPAKE2P_VERIFIER_PASSWORD_LEN] = kani::any();
+        let salt_buf: [u8; 40] = kani::any();
+        let salt_len: usize = kani::any();
+        kani::assume(salt_len <= 40);
+        let salt = &salt_buf[..salt_len];
+        let mut mdns = 0u32;
+        let mut changes = 0u32;
+
+        let r = p.open_basic_comm_window(
+            mdns_id,
+            salt,
+            Spake2pVerifierPasswordRef::new(&password),
+            discriminator,
+            timeout_secs,
+            opener,
+            || mdns += 1,
+            |_, _| changes += 1,
+        );
+
+        let after = view(&p, k);
+        let timeout_ok = timeout_secs >= 180 && timeout_secs <= 900;
+        let salt_ok = salt_len >= 16 && salt_len <= 32;
+
+        kani::assert(!had_window || code(&r) == Some(ErrorCode::Busy), "C02.open_basic.busy_when_window_exists");
+        kani::assert(had_window || timeout_ok || code(&r) == Some(ErrorCode::InvalidCommand), "C02.open_basic.invalid_command_outside_180_900");
+        kani::assert(r.is_ok() == (!had_window && timeout_ok && salt_ok), "C02.open_basic.ok_iff_free_and_legal");
+        kani::assert(r.is_ok() || after == before, "C02.open_basic.failure_changes_nothing");
+        kani::assert(timeout_view(&p) == st_before, "C02.open_basic.session_timeout_untouched");
+        if r.is_ok() {
+            let a = after.unwrap();
+            let expiry = now.as_ticks().saturating_add(timeout_secs as u64 * embassy_time::TICK_HZ);
+            kani::assert(a.failures == 0, "C02.open_basic.fresh_window_has_no_failures");
+            kani::assert(a.expiry == expiry, "C02.open_basic.expires_timeout_from_now");
+            // the contents of the new window (identity, passcode, salt) are `c02_open_basic_window_contents`
+            kani::assert(mdns == 1 && changes == 1, "C02.open_basic.notified_once");
+        } else {
+            kani::assert(mdns == 0 && changes == 0, "C02.open_basic.failure_not_notified");
+        }
+
+        kani::cover!(r.is_ok(), "opened");
+        kani::cover!(code(&r) == Some(ErrorCode::Busy), "busy");
+        kani::cover!(code(&r) == Some(ErrorCode::InvalidCommand) && timeout_secs == 179, "179 s refused");
+        kani::cover!(r.is_ok() && timeout_secs == 180, "180 s accepted");
+        kani::cover!(r.is_ok() && timeout_secs == 900, "900 s accepted");
+        kani::cover!(code(&r) == Some(ErrorCode::InvalidCommand) && timeout_secs == 901, "901 s refused");
+        kani::cover!(!r.is_ok() && !had_window && timeout_ok, "bad salt length refused");
+    }
+
+    /// `open_comm_window` (enhanced, with a verifier): same gates.
+    // TIER: thorough
+    // KIND: bounded (salt argument of 0..=40 bytes; legal lengths are 16..=32)
+    #[kani::proof]
+    #[kani::unwind(99)]
+    #[kani::stub(embassy_time::Instant::now, fake_now)]
+    fn c02_open_comm_window_contract() {
+        let had_window: bool = kani::any();
+        let mut p = if had_window { any_pase(true) } else { closed_pase() };
+        let k = any_probe();
+        let before = view(&p, k);
+        let st_before = timeout_view(&p);
+        let now = set_now();
+
+        let mdns_id: u64 = kani::any();
+        let discriminator: u16 = kani::any();
+        let timeout_secs: u16 = kani::any();
+        let count: u32 = kani::any();
+        let opener = any_opener();
+        let verifier: [u8; spake2p::SPAKE2P_VERIFIER_STR_LEN] = kani::any();
+        let salt_buf: [u8; 40] = kani::any();
+        let salt_len: usize = kani::any();
+        kani::assume(salt_len <= 40);
+        let salt = &salt_buf[..salt_len];
+        let mut mdns = 0u32;
+        let mut changes = 0u32;
+
+        let r = p.open_comm_window(
+            mdns_id,
+            Spake2pVerifierStrRef::new(&verifier),
+            salt,
+            count,
+            discriminator,
+            timeout_secs,
+            opener,
+            || mdns += 1,
+            |_, _| changes += 1,
+        );
+
+        let after = view(&p, k);
+        let timeout_ok = timeout_secs >= 180 && timeout_secs <= 900;
+        let salt_ok = salt_len >= 16 && salt_len <= 32;
+
+        kani::assert(!had_window || code(&r) == Some(ErrorCode::Busy), "C02.open_enhanced.busy_when_window_exists");
+        kani::assert(had_window || timeout_ok || code(&r) == Some(ErrorCode::InvalidCommand), "C02.open_enhanced.invalid_command_outside_180_900");
+        kani::assert(r.is_ok() == (!had_window && timeout_ok && salt_ok), "C02.open_enhanced.ok_iff_free_and_legal");
+        kani::assert(r.is_ok() || after == before, "C02.open_enhanced.failure_changes_nothing");
+        kani::assert(timeout_view(&p) == st_before, "C02.open_enhanced.session_timeout_untouched");
+        if r.is_ok() {
+            let a = after.unwrap();
+            let expiry = now.as_ticks().saturating_add(timeout_secs as u64 * embassy_time::TICK_HZ);
+            kani::assert(a.failures == 0, "C02.open_enhanced.fresh_window_has_no_failures");
+            kani::assert(a.expiry == expiry, "C02.open_enhanced.expires_timeout_from_now");
+            // the contents of the new window (identity, verifier, salt) are `c02_open_enhanced_window_contents`
+            kani::assert(mdns == 1 && changes == 1, "C02.open_enhanced.notified_once");
+        } else {
+            kani::assert(mdns == 0 && changes == 0, "C02.open_enhanced.failure_not_notified");
+        }
+
+        kani::cover!(r.is_ok(), "opened");
+        kani::cover!(code(&r) == Some(ErrorCode::Busy), "busy");
+        kani::cover!(code(&r) == Some(ErrorCode::InvalidCommand), "timeout refused");
+        kani::cover!(!r.is_ok() && !had_window && timeout_ok, "bad salt length refused");
+    }
+
+    /// Contents of a freshly opened basic window: it carries the caller's id, discriminator, opener, passcode and
+    /// salt. The salt length is fixed here: with a symbolic length CBMC mis-models the `copy_from_slice` into the
+    /// `MaybeUninit` storage of the window (the whole window reads back as zero, the iteration count lands inside
+    /// the verifier bytes) - an artefact of the tool, the gate harness above is not affected by it.
+    // TIER: thorough
+    // KIND: bounded (salt of exactly 32 bytes; everything else arbitrary)
+    #[kani::proof]
+    #[kani::unwind(99)]
+    #[kani::stub(embassy_time::Instant::now, fake_now)]
+    fn c02_open_basic_window_contents() {
+        let mut p = closed_pase();
+        let k = any_probe();
+        let _now = set_now();
+        let mdns_id: u64 = kani::any();
+        let discriminator: u16 = kani::any();
+        let timeout_secs: u16 = kani::any();
+        kani::assume(timeout_secs >= 180 && timeout_secs <= 900);
+        let opener = any_opener();
+        let password: [u8; SPAKE2P_VERIFIER_PASSWORD_LEN] = kani::any();
+        let salt: [u8; SPAKE2P_VERIFIER_SALT_LEN] = kani::any();
+
+        let r = p.open_basic_comm_window(mdns_id, &salt, Spake2pVerifierPasswordRef::new(&password), discriminator, timeout_secs, opener, || {}, |_, _| {});
+
+        kani::assert(r.is_ok(), "C02.open_basic.contents_opened");
+        if let Some(a) = view(&p, k) {
+            kani::assert(a.mdns_id == mdns_id && a.discriminator == discriminator && a.opener == opener, "C02.open_basic.window_identity");
+            kani::assert(a.password == Some(password) && a.salt_len as usize == SPAKE2P_VERIFIER_SALT_LEN, "C02.open_basic.window_passcode");
+            kani::assert(a.salt_at == salt[k.si], "C02.open_basic.window_salt");
+            kani::assert(p.comm_window().map(|w| w.comm_window_type()) == Some(CommWindowType::Basic), "C02.open_basic.window_is_basic");
+        } else {
+            kani::assert(false, "C02.open_basic.contents_window_exists");
+        }
+        kani::cover!(r.is_ok() && opener.is_some(), "opened by an administrator");
+        kani::cover!(r.is_ok() && opener.is_none(), "opened by the device");
+    }
+
+    /// Contents of a freshly opened enhanced window (same remark on the salt length).
+    // TIER: thorough
+    // KIND: bounded (salt of exactly 32 bytes; everything else arbitrary)
+    #[kani::proof]
+    #[kani::unwind(99)]
+    #[kani::stub(embassy_time::Instant::now, fake_now)]
+    fn c02_open_enhanced_window_contents() {
+        let mut p = closed_pase();
+        let k = any_probe();
+        let _now = set_now();
+        let mdns_id: u64 = kani::any();
+        let discriminator: u16 = kani::any();
+        let timeout_secs: u16 = kani::any();
+        kani::assume(timeout_secs >= 180 && timeout_secs <= 900);
+        let count: u32 = kani::any();
+        let opener = any_opener();
+        let verifier: [u8; spake2p::SPAKE2P_VERIFIER_STR_LEN] = kani::any();
+        let salt: [u8; SPAKE2P_VERIFIER_SALT_LEN] = kani::any();
+
+        let r = p.open_comm_window(mdns_id, Spake2pVerifierStrRef::new(&verifier), &salt, count, discriminator, timeout_secs, opener, || {}, |_, _| {});
+
+        kani::assert(r.is_ok(), "C02.open_enhanced.contents_opened");
+        if let Some(a) = view(&p, k) {
+            kani::assert(a.mdns_id == mdns_id && a.discriminator == discriminator && a.opener == opener, "C02.open_enhanced.window_identity");
+            kani::assert(
+                a.password.is_none() && a.verifier_at == verifier[k.vi] && a.salt_at == salt[k.si] && a.count == count && a.salt_len as usize == SPAKE2P_VERIFIER_SALT_LEN,
+                "C02.open_enhanced.window_verifier"
+            );
+            kani::assert(p.comm_window().map(|w| w.comm_window_type()) == Some(CommWindowType::Enhanced), "C02.open_enhanced.window_is_enhanced");
+        } else {
+            kani::assert(false, "C02.open_enhanced.contents_window_exists");
+        }
+        kani::cover!(r.is_ok(), "opened");
+    }
+
+    /// `close_comm_window`: afterwards no window; tells whether there was one; notifies only then.
+    // TIER: quick
+    // KIND: complete
+    #[kani::proof]
+    fn c02_close_comm_window_contract() {
+        let had_window: bool = kani::any();
+        let mut p = any_pase(had_window);
+        let st_before = timeout_view(&p);
+        let mut mdns = 0u32;
+        let mut changes = 0u32;
+
+        let r = p.close_comm_window(|| mdns += 1, |_, _| changes += 1);
+
+        kani::assert(matches!(r, Ok(b) if b == had_window), "C02.close.returns_whether_a_window_was_open");
+        kani::assert(view(&p, any_probe()).is_none(), "C02.close.no_window_afterwards");
+        kani::assert(p.comm_window_state() == CommWindowState::Closed, "C02.close.state_closed");
+        kani::assert(timeout_view(&p) == st_before, "C02.close.session_timeout_untouched");
+        kani::assert(mdns == had_window as u32 && changes == had_window as u32, "C02.close.notified_iff_closed");
+
+        kani::cover!(had_window, "closed a window");
+        kani::cover!(!had_window, "nothing to close");
+    }
+
+    /// `check_comm_window_timeout`: closes the window iff the clock is past its expiry.
+    // TIER: quick
+    // KIND: complete
+    #[kani::proof]
+    #[kani::stub(embassy_time::Instant::now, fake_now)]
+    fn c02_check_comm_window_timeout_contract() {
+        let had_window: bool = kani::any();
+        let mut p = any_pase(had_window);
+        let k = any_probe();
+        let before = view(&p, k);
+        let st_before = timeout_view(&p);
+        let now = set_now();
+        let mut mdns = 0u32;
+        let mut changes = 0u32;
+
+        let r = p.check_comm_window_timeout(|| mdns += 1, |_, _| changes += 1);
+
+        let after = view(&p, k);
+        let expired = matches!(before, Some(b) if now.as_ticks() > b.expiry);
+        kani::assert(matches!(r, Ok(b) if b == expired), "C02.timeout.returns_expired");
+        kani::assert(!expired || after.is_none(), "C02.timeout.expired_window_closed");
+        kani::assert(expired || after == before, "C02.timeout.live_window_untouched");
+        kani::assert(timeout_view(&p) == st_before, "C02.timeout.session_timeout_untouched");
+        kani::assert(mdns == expired as u32 && changes == expired as u32, "C02.timeout.notified_iff_closed");
+
+        kani::cover!(expired, "expired");
+        kani::cover!(matches!(before, Some(b) if now.as_ticks() == b.expiry) && after.is_some(), "at expiry still open");
+        kani::cover!(before.is_none(), "no window");
+    }
+
+    /// `comm_window_state`: Open (with the opener) exactly while a window exists.
+    // TIER: quick
+    // KIND: complete
+    #[kani::proof]
+    fn c02_comm_window_state_contract() {
+        let had_window: bool = kani::any();
+        let p = any_pase(had_window);
+        let k = any_probe();
+        let v = view(&p, k);
+
+        let s = p.comm_window_state();
+
+        kani::assert(s.is_open() == had_window, "C02.state.open_iff_window");
+        kani::assert(
+            match (s, v) {
+                (CommWindowState::Open { opener }, Some(w)) => opener == w.opener,
+                (CommWindowState::Closed, None) => true,
+                _ => false,
+            },
+            "C02.state.reports_opener"
+        );
+        kani::assert(
+            s.is_open_on_all_transports() == matches!(v, Some(w) if w.opener.is_none()),
+            "C02.state.all_transports_iff_self_opened"
+        );
+        kani::assert(
+            match (p.comm_window(), v) {
+                (Some(w), Some(vw)) => {
+                    w.mdns_service() == MatterLocalService::Commissionable { id: vw.mdns_id, discriminator: vw.discriminator, enhanced: vw.password.is_none() }
+                }
+                (None, None) => true,
+                _ => false,
+            },
+            "C02.state.commissionable_record_of_window"
+        );
+
+        kani::cover!(had_window, "open");
+        kani::cover!(!had_window, "closed");
+    }
+
+    /// `Matter::mdns_services` @ lib.rs:730: a commissionable record is published exactly while a window
+    /// exists, and it is that window's record. (No fabric is installed, so nothing else is published.)
+    /// The harness lives here because the window state is built from the private fields of `Pase`.
+    // TIER: thorough
+    // KIND: complete
+    #[kani::proof]
+    #[kani::unwind(3)]
+    fn c02_mdns_services_commissionable_iff_window() {
+        let matter = crate::Matter::new(
+            &crate::dm::devices::test::TEST_DEV_DET,
+            crate::dm::devices::test::TEST_DEV_COMM,
+            &crate::dm::devices::test::TEST_DEV_ATT,
+            0,
+        );
+        let had_window: bool = kani::any();
+        let p = any_pase(had_window);
+        let k = any_probe();
+        let v = view(&p, k);
+        matter.with_state(|st| st.pase = p);
+
+        let mut commissionable = 0u32;
+        let mut operational = 0u32;
+        let mut record_ok = true;
+        let r = matter.mdns_services(|svc| {
+            match svc {
+                MatterLocalService::Commissionable { id, discriminator, enhanced } => {
+                    commissionable += 1;
+                    record_ok = record_ok && matches!(v, Some(w) if w.mdns_id == id && w.discriminator == discriminator && w.password.is_none() == enhanced);
+                }
+                MatterLocalService::Commissioned { .. } => operational += 1,
+            }
+            Ok(())
+        });
+
+        kani::assert(r.is_ok(), "C02.mdns.never_fails");
+        kani::assert(commissionable == had_window as u32, "C02.mdns.commissionable_iff_window");
+        kani::assert(record_ok, "C02.mdns.record_is_the_windows");
+        kani::assert(operational == 0, "C02.mdns.no_fabric_no_operational_record");
+        kani::assert(matter.comm_window_state().is_open() == had_window, "C02.mdns.state_agrees");
+
+        kani::cover!(commissionable == 1, "advertised");
+        kani::cover!(commissionable == 0, "not advertised");
+    }
+}
